@@ -519,6 +519,9 @@ def generate(report):
         except Untranslatable as e:
             failed["py_sock" + m] = str(e)
             ssib[m] = "fuel" in sig
+            if m == "readline":
+                out.append("Definition py_sockreadline_test1 : IO (world S) bool := raiseIO EOther.\n"
+                           "Definition py_sockreadline_body1 (fuel : nat) : IO (world S) ctl := let _ := rcv in let _ := attr in raiseIO EOther.\n")
             if m == "read":
                 out.append("Definition py_sockread_test1 (v_num : gv) : IO (world S) bool := raiseIO EOther.\n"
                            "Definition py_sockread_body1 (v_num : gv) : IO (world S) ctl := let _ := rcv in let _ := attr in raiseIO EOther.\n")
